@@ -1,8 +1,185 @@
-import Ufw.Model.Regp
-import Ufw.Spec.Regp
+/-
+C09 – receiving and processing arbitrary input is memory-safe and resource-exact.
+Property theorems only.
+
+What a theorem about the model can carry: the index arithmetic (how many octets are stored in
+the block, where the backend's buffer lies, how long the payload is that a write hands over),
+the allocator ledger, and which reply each resource fault gets.  That the compiled C code never
+leaves the block is observed (ASan on exact-size blocks), not proved; see DESIGN.md.
+-/
+import Ufw.Props.C06
+
 namespace Ufw.Props.C09
-open Ufw Ufw.Model.Regp
-/-- placeholder while the correspondence is brought up: the session counter wraps at 2^16 -/
-theorem seq_step (c : Cfg) (snk : Ufw.Model.Slip.Snk) (seq : Nat) (s16 : Bool) (a n : Nat) :
-    (regp_req_read c snk seq s16 a n).2 = (seq + 1) % 65536 := rfl
+open Ufw Ufw.Model.Regp Ufw.Lemmas.Regp
+open Ufw.Model.Slip (Snk SrcEv)
+open Ufw.Spec.Regp (Frame MType wire errorResponse metaFrame)
+open Ufw.Props.C08 (reqOf Fits Emits)
+
+/-- for EVERY source content (octets and errors in any order), transport, block size B > F and
+    allocation script: what `regp_recv` keeps of a frame never exceeds the B - F octets behind the
+    RPFrame structure of the block -/
+theorem stored_le_capacity (p : Inst) (hcap : 0 < p.cfg.B - p.cfg.F) (b : Block)
+    (h : (regp_recv p).2.1.frame = some b) : b.raw.length ≤ p.cfg.B - p.cfg.F := by
+  rcases hch : channelRecv p.cfg p.src with ⟨chan, got, rest⟩
+  simp only [regp_recv, hch, csRun_eq p.cfg p.al hcap got, csAfter] at h
+  by_cases hg : got = []
+  · cases chan <;> simp [hg] at h
+  · by_cases hal : p.al.script.head?.getD false = true
+    · cases chan <;> simp [hg, hal] at h
+    · cases chan with
+      | some e => simp [hg, hal] at h
+      | none =>
+        by_cases hbig : got.length > p.cfg.B - p.cfg.F
+        · simp only [hg, hal, hbig, Bool.false_eq_true, ↓reduceIte, Option.getD_some, Option.some.injEq] at h
+          rw [← h]; simp only [List.length_take]; omega
+        · simp only [hg, hal, hbig, Bool.false_eq_true, ↓reduceIte] at h
+          rcases hpf : parse_frame (got.take (p.cfg.B - p.cfg.F)) with ⟨r, ho⟩
+          rw [hpf] at h
+          cases r with
+          | ok v => simp only [Option.some.injEq] at h; rw [← h]; simp only [List.length_take]; omega
+          | error e =>
+            by_cases h1 : e = .ebadmsg
+            · simp only [h1, ↓reduceIte, Option.some.injEq] at h; rw [← h]; simp only [List.length_take]; omega
+            · by_cases h2 : e = .eilseq
+              · subst h2
+                simp at h
+                rw [← h]; simp only [List.length_take]; omega
+              · simp only [h1, h2, ↓reduceIte, Option.some.injEq] at h
+                rw [← h]; simp only [List.length_take]; omega
+
+/-- the ledger: after `regp_recv`, whatever the input, the number of blocks handed out and not yet
+    released has grown by exactly one if a frame is returned and not at all otherwise - in
+    particular a channel error (which returns no frame) has released the block it had obtained -/
+theorem ledger (p : Inst) (hcap : 0 < p.cfg.B - p.cfg.F) :
+    (regp_recv p).2.2.al.live = p.al.live + (if (regp_recv p).2.1.frame.isSome then 1 else 0) := by
+  rcases hch : channelRecv p.cfg p.src with ⟨chan, got, rest⟩
+  simp only [regp_recv, hch, csRun_eq p.cfg p.al hcap got, csAfter]
+  by_cases hg : got = []
+  · cases chan <;> simp [hg]
+  · by_cases hal : p.al.script.head?.getD false = true
+    · cases chan <;> simp [hg, hal]
+    · cases chan with
+      | some e => simp [hg, hal]
+      | none =>
+        by_cases hbig : got.length > p.cfg.B - p.cfg.F
+        · simp [hg, hal, hbig]
+        · simp only [hg, hal, hbig, Bool.false_eq_true, ↓reduceIte]
+          rcases hpf : parse_frame (got.take (p.cfg.B - p.cfg.F)) with ⟨r, ho⟩
+          cases r with
+          | ok v => simp
+          | error e =>
+            by_cases h1 : e = .ebadmsg
+            · simp [h1]
+            · by_cases h2 : e = .eilseq <;> simp [h1, h2]
+
+/-- a channel error returns no frame (so, by `ledger`, holds no block) -/
+theorem channel_error_no_frame (p : Inst) (e : Err) (got : List Octet) (rest : List SrcEv)
+    (hch : channelRecv p.cfg p.src = (some e, got, rest)) (hcap : 0 < p.cfg.B - p.cfg.F) :
+    (regp_recv p).1 = some e ∧ (regp_recv p).2.1.frame = none ∧ (regp_recv p).2.2.al.live = p.al.live := by
+  obtain ⟨h1, h2, h3, _, _⟩ := recv_chan_error p e got rest hch hcap
+  exact ⟨h1, by rw [h2], h3⟩
+
+/-- the documented free call releases the returned block exactly once: the ledger is back where
+    it was before the receive, and a second call changes nothing -/
+theorem free_releases_once (p : Inst) (hcap : 0 < p.cfg.B - p.cfg.F) :
+    let r := regp_recv p
+    let f1 := regp_free r.2.2 r.2.1
+    f1.1.al.live = p.al.live ∧ f1.2.frame = none ∧ regp_free f1.1 f1.2 = f1 := by
+  have hl := ledger p hcap
+  simp only [regp_free]
+  cases hf : (regp_recv p).2.1.frame with
+  | none => simp [hf] at hl ⊢; exact hl
+  | some b => simp [hf] at hl ⊢; omega
+
+/-- WRITE: the payload handed to the backend is exactly the announced block - `bsize` atoms of
+    the frame's word size, not an octet less -/
+theorem write_payload_exact (raw : List Octet) (h : Hdr) (off : Nat)
+    (hok : (parse_frame raw).1 = .ok (h, off)) (ht : h.type = 2) :
+    (raw.drop (2 * off)).length = h.bsize * (if h.opts % 2 = 1 then 2 else 1) := by
+  simp only [parse_frame] at hok
+  cases hph : parse_header raw with
+  | error e => simp [hph, parse_frame_rest] at hok
+  | ok v =>
+    obtain ⟨h', off'⟩ := v
+    simp only [hph, parse_frame_rest] at hok
+    cases hpc : payload_checks h' (raw.drop (2 * off')) with
+    | some e => simp [hpc] at hok
+    | none =>
+      simp only [hpc, Except.ok.injEq, Prod.mk.injEq] at hok
+      obtain ⟨e1, e2⟩ := hok
+      subst e1 e2
+      have htc : h'.type = MType.writeRequest.code := by simp [MType.code, ht]
+      rw [payload_checks_eq h' _ .writeRequest htc] at hpc
+      by_cases hs : Ufw.Spec.Regp.sizeValid (frameWith .writeRequest h' (raw.drop (2 * off'))) = true
+      · simp only [Ufw.Spec.Regp.sizeValid, frameWith] at hs
+        by_cases hw : h'.opts % 2 = 1 <;> simp [hw] at hs ⊢ <;> omega
+      · simp [hs] at hpc
+
+/-- a frame too large for the receive block (whose room, B - F, holds at least a header) from a
+    request is answered with the receive-overflow response carrying the buffer size; the block is
+    returned unparsed with error id ENOMEM -/
+theorem overflow_reply (p : Inst) (raw : List Octet) (rest : List SrcEv) (h : Hdr) (off : Nat)
+    (hch : channelRecv p.cfg p.src = (none, raw, rest)) (h16 : RP_HEADER_SIZE ≤ p.cfg.B - p.cfg.F)
+    (hal : p.al.script.head?.getD false = false) (hbig : raw.length > p.cfg.B - p.cfg.F)
+    (hph : parse_header (raw.take RP_HEADER_SIZE) = .ok (h, off)) (ht : h.type = 0 ∨ h.type = 2)
+    (hroom : Fits p.snk (wire p.cfg.serial (errorResponse (reqOf h) 4 ((p.cfg.B - p.cfg.F) % 2 ^ 32)))) :
+    (regp_recv p).2.1.err = some .enomem ∧
+    (regp_recv p).1 = none ∧
+    (regp_recv p).2.2.snk.got = p.snk.got ++ wire p.cfg.serial (errorResponse (reqOf h) 4 ((p.cfg.B - p.cfg.F) % 2 ^ 32)) := by
+  have hcap : 0 < p.cfg.B - p.cfg.F := by simp only [RP_HEADER_SIZE] at h16; omega
+  obtain ⟨hmf, _, _, hreply⟩ := recv_overflow p raw rest hch hcap hal hbig
+  have htk : (raw.take (p.cfg.B - p.cfg.F)).take RP_HEADER_SIZE = raw.take RP_HEADER_SIZE := by
+    rw [List.take_take]; congr 1; omega
+  rw [htk] at hreply
+  have hreq : is_request h = true := by rcases ht with ht | ht <;> simp [is_request, ht]
+  have hem := Ufw.Props.C08.resp32_wire p.cfg p.snk h 4 ((p.cfg.B - p.cfg.F) % 2 ^ 32) ht (by omega)
+    (by simp [Ufw.Spec.Regp.carriesValue]) hroom
+  simp only [send_early_response, hph, hreq, Bool.not_true, Bool.false_eq_true, ↓reduceIte] at hreply
+  refine ⟨by rw [hmf], ?_, ?_⟩
+  · have := congrArg Prod.fst hreply; simp only at this; rw [this]; exact hem.1
+  · have := congrArg Prod.snd hreply; simp only at this; rw [this]; exact hem.2
+
+/-- an allocation failure is answered - for a request - with the busy response; nothing is held -/
+theorem busy_reply (p : Inst) (raw : List Octet) (rest : List SrcEv) (h : Hdr) (off : Nat)
+    (hch : channelRecv p.cfg p.src = (none, raw, rest)) (hcap : 0 < p.cfg.B - p.cfg.F)
+    (hne : raw ≠ []) (hal : p.al.script.head?.getD false = true)
+    (hph : parse_header (raw.take RP_HEADER_SIZE) = .ok (h, off)) (ht : h.type = 0 ∨ h.type = 2)
+    (hroom : Fits p.snk (wire p.cfg.serial (errorResponse (reqOf h) 6 0))) :
+    (regp_recv p).2.1 = { err := some .ebusy, framesize := raw.length, frame := none } ∧
+    (regp_recv p).2.2.al.live = p.al.live ∧
+    (regp_recv p).1 = none ∧
+    (regp_recv p).2.2.snk.got = p.snk.got ++ wire p.cfg.serial (errorResponse (reqOf h) 6 0) := by
+  obtain ⟨hmf, _, hal', hreply⟩ := recv_busy p raw rest hch hcap hne hal
+  have hreq : is_request h = true := by rcases ht with ht | ht <;> simp [is_request, ht]
+  have hem := Ufw.Props.C08.resp0_wire p.cfg p.snk h 6 0 ht (by omega) (by simp [Ufw.Spec.Regp.carriesValue]) hroom
+  simp only [send_early_response, hph, hreq, Bool.not_true, Bool.false_eq_true, ↓reduceIte] at hreply
+  have hne4 : ¬ (6 : Nat) = 4 := by omega
+  simp only [hne4, ↓reduceIte] at hreply
+  refine ⟨hmf, by rw [hal'], ?_, ?_⟩
+  · have := congrArg Prod.fst hreply; simp only at this; rw [this]; exact hem.1
+  · have := congrArg Prod.snd hreply; simp only at this; rw [this]; exact hem.2
+
+/-- a frame shorter than a header - including the empty frame, for which no block is obtained - is
+    reported as bad header encoding: error id EBADMSG and the META message EHEADERENC -/
+theorem short_frame_reply (p : Inst) (raw : List Octet) (rest : List SrcEv)
+    (hch : channelRecv p.cfg p.src = (none, raw, rest)) (hcap : 0 < p.cfg.B - p.cfg.F)
+    (hal : p.al.script.head?.getD false = false) (hshort : raw.length < RP_HEADER_MIN_SIZE)
+    (hfit : raw.length ≤ p.cfg.B - p.cfg.F)
+    (hroom : Fits p.snk (wire p.cfg.serial (metaFrame 1))) :
+    (regp_recv p).2.1.err = some .ebadmsg ∧
+    (regp_recv p).2.2.snk.got = p.snk.got ++ wire p.cfg.serial (metaFrame 1) ∧
+    (raw = [] → (regp_recv p).2.1.frame = none ∧ (regp_recv p).2.2.al.live = p.al.live) := by
+  have hem := Ufw.Props.C08.meta_wire p.cfg p.snk 1 (by omega) hroom
+  by_cases hne : raw = []
+  · subst hne
+    obtain ⟨hmf, _, hal', hreply⟩ := recv_empty p rest hch
+    refine ⟨by rw [hmf], ?_, fun _ => ⟨by rw [hmf], by rw [hal']⟩⟩
+    have := congrArg Prod.snd hreply; simp only at this; rw [this]; exact hem.2
+  · obtain ⟨hmf, _, _, _, _, hreply⟩ := recv_stored p raw rest hch hcap hne hal hfit
+    have hpf : parse_frame raw = (.error .ebadmsg, none) := by
+      simp [parse_frame, parse_header, hshort, parse_frame_rest]
+    rw [hpf] at hmf hreply
+    refine ⟨by rw [hmf]; rfl, ?_, fun h => absurd h hne⟩
+    have := congrArg Prod.snd hreply; simp only [↓reduceIte] at this; rw [this]; exact hem.2
+
 end Ufw.Props.C09
